@@ -801,9 +801,26 @@ class Dict(dict, base.Symbolic, pg_typing.CustomTyping):
     if base.treats_as_sealed(self):
       raise base.WritePermissionError('Cannot clear a sealed Dict.')
     value_spec = self._value_spec
+    old_items = list(dict.items(self))
     self._value_spec = None
+    super().clear()
+
+    if value_spec:
+      try:
+        self.use_value_spec(value_spec, self._allow_partial)
+      except Exception:
+        # The schema does not accept an empty dict: keep the old content.
+        super().clear()
+        for key, value in old_items:
+          dict.__setitem__(self, key, value)
+        self._value_spec = value_spec
+        raise
+
     updates = []
-    for key, value in dict.items(self):
+    for key, value in old_items:
+      new_value = dict.get(self, key, pg_typing.MISSING_VALUE)
+      if new_value is value:
+        continue
       if isinstance(value, base.TopologyAware):
         value.sym_setparent(None)
         value.sym_setpath(utils.KeyPath())
@@ -812,11 +829,7 @@ class Dict(dict, base.Symbolic, pg_typing.CustomTyping):
               self.sym_path + key, self._update_target(),
               value_spec.schema.get_field(key)
               if value_spec and value_spec.schema else None,
-              value, pg_typing.MISSING_VALUE))
-    super().clear()
-
-    if value_spec:
-      self.use_value_spec(value_spec, self._allow_partial)
+              value, new_value))
     if updates and flags.is_change_notification_enabled():
       self._notify_field_updates(updates)
 
